@@ -331,9 +331,10 @@ func (p *MetadataPersister) GetHeaderDirectChildren(ctx context.Context, name st
 
 		query := fmt.Sprintf(
 			`select %v, %v, %v, %v, %v, %v, %v, %v, %v, %v, %v, %v, %v, %v, %v, %v, %v, %v, %v, %v, %v,
-    length(replace(%v, ?, '')) - length(replace(replace(%v, ?, ''), '/', '')) as depth
+    length(substr(%v, length(?) + 1)) - length(replace(substr(%v, length(?) + 1), '/', '')) as depth
 from %v
 where %v like ?
+    and substr(%v, 1, length(?)) = ?
     and (
         depth = ?
         or (
@@ -370,6 +371,7 @@ where %v like ?
 			models.TableNames.Headers,
 			pk,
 			pk,
+			pk,
 			models.HeaderColumns.Deleted,
 			exclude,
 			pk,
@@ -381,6 +383,8 @@ where %v like ?
 				prefix,
 				prefix,
 				prefix+"%",
+				prefix,
+				prefix,
 				rootDepth,
 				rootDepth+1,
 				limit+1, // +1 to accomodate the parent directory if it exists
@@ -397,6 +401,8 @@ where %v like ?
 				prefix,
 				prefix,
 				prefix+"%",
+				prefix,
+				prefix,
 				rootDepth,
 				rootDepth+1,
 			).Bind(ctx, p.sqlite.DB, &headers); err != nil {
